@@ -427,6 +427,7 @@ class Interp:
         a.path.append((s.test, True, tv))
         b.path.append((s.test, False, tv))
         self.refine(s.test, a, True)
+        self.refine(s.test, b, False)
         self.ex_block(s.body, a)
         self.ex_block(s.orelse, b)
         ta = terminates(s.body)
@@ -439,7 +440,31 @@ class Interp:
             env.merge(a, b)
 
     def refine(self, test, env, truth):
-        pass
+        """`idx < n` known on this path (from `if idx >= n: continue` or `if idx < n:`): an index over a dimension is an index over its first n
+        positions"""
+        if not (isinstance(test, ast.Compare) and len(test.ops) == 1):
+            return
+        l, r, op = test.left, test.comparators[0], test.ops[0]
+        below = None
+        if isinstance(l, ast.Name) and ((isinstance(op, ast.Lt) and truth) or (isinstance(op, ast.GtE) and not truth)):
+            below = (l.id, r)
+        elif isinstance(r, ast.Name) and ((isinstance(op, ast.Gt) and truth) or (isinstance(op, ast.LtE) and not truth)):
+            below = (r.id, l)
+        if below is None:
+            return
+        cur = env.vars.get(below[0])
+        if not (isinstance(cur, IdxV) and isinstance(cur.layout, Dim)):
+            return
+        bound = self.ev(below[1], env)
+        if isinstance(bound, Const) and isinstance(bound.value, int):
+            bound = SizeV.const(bound.value)
+        if not isinstance(bound, SizeV):
+            return
+        new = IdxV(cur.loop, Dim(bound), cur.offset)
+        env.vars[below[0]] = new
+        for k, dm in list(self.divmods.items()):
+            if dm[2] == cur:
+                self.divmods[k] = (dm[0], dm[1], new)
 
     def ex_Assert(self, s, env: Env):
         t = s.test
@@ -696,6 +721,10 @@ class Interp:
                 return base.attrs[attr]
             meth = self.p.method(base.attrs.get("__module__", env.module), base.cls, attr)
             if meth is not None:
+                deco = {ast.unparse(d) for d in meth.decorator_list}
+                if deco & {"property", "functools.cached_property", "cached_property"} and len(meth.args.args) == 1:
+                    # a read-only property: its value is what the getter returns for this object
+                    return self.call_func(FuncV(meth, base.attrs.get("__module__", env.module), base, base.cls), [], {}, env, node)
                 return FuncV(meth, base.attrs.get("__module__", env.module), base, base.cls)
             return Unknown(f"attr {base.cls}.{attr}")
         if isinstance(base, ModelV):
